@@ -26,7 +26,7 @@ S(c, name) == IF c THEN {} ELSE {name}
 TInit == /\ tid \in 1..Len(Batch) /\ l = 1 /\ bad = {}
          /\ cfg = R.opts
          /\ authUser = "" /\ failCount = 0 /\ authenticated = FALSE /\ alive = TRUE
-         /\ mode = "plain" /\ expect = "any" /\ offer = FALSE /\ req = Blank /\ cbs = <<>> /\ out = <<>>
+         /\ mode = "plain" /\ expect = "any" /\ offer = FALSE /\ rekeyed = FALSE /\ req = Blank /\ cbs = <<>> /\ out = <<>>
          /\ grantedBy = Nobody /\ failed = 0
 
 \* without a callable GSS table the pinned tree dies on every message; a tree with a repaired dispatch decides
@@ -38,7 +38,7 @@ Conforms(m) == Agrees(m) \/ (mode = "gss" /\ ~cfg.bound /\ Agrees(Handle([cfg EX
 TStep(Model) ==
   /\ l' = l + 1 /\ tid' = tid
   /\ cfg' = cfg /\ req' = E.req
-  /\ authUser' = Model.st.authUser /\ expect' = Model.st.expect /\ offer' = Model.st.offer
+  /\ authUser' = Model.st.authUser /\ expect' = Model.st.expect /\ offer' = Model.st.offer /\ rekeyed' = Model.st.rekeyed
   /\ failCount' = Model.st.failCount /\ failed' = failed + NFail(E.out)
   /\ authenticated' = E.authed /\ alive' = E.alive /\ mode' = E.mode
   /\ cbs' = E.cbs /\ out' = E.out
